@@ -250,9 +250,37 @@ type Op struct {
 	B bool   // admin type (super)
 	F []int  // fault positions
 	N int    // page size
+	D string // sp up: details of another provisioner type ("acme", "oidc") or none at all ("none"); "" = the right ones
 }
 
 type Case struct{ Ops []Op }
+
+// setDetails gives a JWK-typed record the details of another type; the result is the model's
+// field <type>.<type the details belong to | !>
+func setDetails(p *linkedca.Provisioner, d string) string {
+	switch d {
+	case "acme":
+		p.Details = &linkedca.ProvisionerDetails{Data: &linkedca.ProvisionerDetails_ACME{ACME: &linkedca.ACMEProvisioner{}}}
+		return fmt.Sprintf(":%d.%d", p.Type, linkedca.Provisioner_ACME)
+	case "oidc":
+		p.Details = &linkedca.ProvisionerDetails{Data: &linkedca.ProvisionerDetails_OIDC{OIDC: &linkedca.OIDCProvisioner{ClientId: "c", ConfigurationEndpoint: "https://idp.verif.test/.well-known/openid-configuration"}}}
+		return fmt.Sprintf(":%d.%d", p.Type, linkedca.Provisioner_OIDC)
+	case "none":
+		p.Details = nil
+		return fmt.Sprintf(":%d.!", p.Type)
+	case "badclaims":
+		// the right details, but claims the provisioner's Init refuses (the authority does not run ValidateClaims)
+		p.Claims = &linkedca.Claims{X509: &linkedca.X509Claims{Enabled: true, Durations: &linkedca.Durations{Min: "10h", Max: "1h"}}}
+		return fmt.Sprintf(":%d.%d.0", p.Type, p.Type)
+	case "zeromin":
+		p.Claims = &linkedca.Claims{X509: &linkedca.X509Claims{Enabled: true, Durations: &linkedca.Durations{Min: "0s"}}}
+		return fmt.Sprintf(":%d.%d.0", p.Type, p.Type)
+	case "goodclaims":
+		p.Claims = &linkedca.Claims{X509: &linkedca.X509Claims{Enabled: true, Durations: &linkedca.Durations{Min: "1m", Max: "2h", Default: "1h"}}}
+		return fmt.Sprintf(":%d.%d.1", p.Type, p.Type)
+	}
+	return ""
+}
 
 func hx(s string) string { return hex.EncodeToString([]byte(s)) }
 func sum(id string) string {
@@ -338,7 +366,12 @@ func (w *world) close() {
 	os.RemoveAll(w.dir)
 }
 
-func (w *world) start() (*authority.Authority, error) {
+func (w *world) start() (a *authority.Authority, err error) {
+	defer func() {
+		if r := recover(); r != nil {
+			a, err = nil, fmt.Errorf("start-up panicked: %v", r)
+		}
+	}()
 	cfg := &config.Config{
 		Address:         "127.0.0.1:0",
 		DNSNames:        []string{"ca.verif.test"},
@@ -621,6 +654,10 @@ func (w *world) exec(o Op) (tok, item string) {
 			p.Policy = ps.linked()
 			polF = ":" + ps.field()
 		}
+		detF := setDetails(p, o.D)
+		if detF != "" && polF == "" {
+			polF = ":!"
+		}
 		run(func() { err = w.auth.StoreProvisioner(ctx, p) })
 		id := p.Id
 		if id == "" {
@@ -628,7 +665,7 @@ func (w *world) exec(o Op) (tok, item string) {
 		} else {
 			w.provIDs = append(w.provIDs, id)
 		}
-		return "sp:" + provFields(id, o.A[0]) + ":" + faultsS(o.F) + polF, fin()
+		return "sp:" + provFields(id, o.A[0]) + ":" + faultsS(o.F) + polF + detF, fin()
 	case "cp", "mp":
 		ps := polByTag(o.P)
 		if ps == nil {
@@ -644,11 +681,8 @@ func (w *world) exec(o Op) (tok, item string) {
 		})
 		return fmt.Sprintf("%s:%s:%s:%s", o.K, hx(o.A[0]), ps.field(), faultsS(o.F)), fin()
 	case "dp":
-		// the admin API answers 404 without calling RemoveAuthorityPolicy when no policy is stored;
-		// calling it anyway after an earlier delete dereferences a nil record (notes/C16.md)
-		if pol, _ := w.inner.GetAuthorityPolicy(ctx); pol == nil {
-			return "", ""
-		}
+		// also when no policy is stored (never created, or already deleted): a storage error, not
+		// the nil dereference it was before 3ba0ea4 (notes/C16.md)
 		run(func() { err = w.auth.RemoveAuthorityPolicy(ctx) })
 		return "dp:" + faultsS(o.F), fin()
 	case "up":
@@ -665,8 +699,12 @@ func (w *world) exec(o Op) (tok, item string) {
 			nu.Policy = ps.linked()
 			polF = ":" + ps.field()
 		}
+		detF := setDetails(nu, o.D)
+		if detF != "" && polF == "" {
+			polF = ":!"
+		}
 		run(func() { err = w.auth.UpdateProvisioner(ctx, nu) })
-		return "up:" + provFields(id, o.A[1]) + ":" + faultsS(o.F) + polF, fin()
+		return "up:" + provFields(id, o.A[1]) + ":" + faultsS(o.F) + polF + detF, fin()
 	case "rp":
 		id := w.ref(w.provIDs, o.A[0])
 		run(func() { err = w.auth.RemoveProvisioner(ctx, id) })
@@ -889,7 +927,7 @@ func (k *Case) runProps() (line, verdict string) {
 			renamed = true // the rename is in the database; only the reload after it failed
 		}
 		if cls == "reloadfail" {
-			if len(w.fdb.fired) >= 2 {
+			if len(w.fdb.fired) >= 2 && os.Getenv("C16_NOTAINT") != "1" {
 				// two storage failures in one request: outside the property's fault model. Cache and
 				// database may now disagree, and whatever is written while they do can be anything (e.g.
 				// the last real super admin deleted because the cache counts a phantom one), so the
@@ -1000,6 +1038,13 @@ func maybePol(r *c.Rng) string {
 	return ""
 }
 
+func maybeDet(r *c.Rng) string {
+	if r.Chance(1, 6) {
+		return c.Pick(r, []string{"acme", "oidc", "none", "badclaims", "zeromin", "goodclaims"})
+	}
+	return ""
+}
+
 func genCase(r *c.Rng) *Case {
 	k := &Case{}
 	np := 1 + r.Intn(2)
@@ -1035,10 +1080,10 @@ func genCase(r *c.Rng) *Case {
 		case x < 50:
 			k.Ops = append(k.Ops, Op{K: "ra", A: []string{ar()}, F: genFaults(r)})
 		case x < 60:
-			k.Ops = append(k.Ops, Op{K: "sp", A: []string{c.Pick(r, nameP)}, F: genFaults(r), P: maybePol(r)})
+			k.Ops = append(k.Ops, Op{K: "sp", A: []string{c.Pick(r, nameP)}, F: genFaults(r), P: maybePol(r), D: maybeDet(r)})
 			npv++
 		case x < 72:
-			k.Ops = append(k.Ops, Op{K: "up", A: []string{pr(), c.Pick(r, nameP)}, F: genFaults(r), P: maybePol(r)})
+			k.Ops = append(k.Ops, Op{K: "up", A: []string{pr(), c.Pick(r, nameP)}, F: genFaults(r), P: maybePol(r), D: maybeDet(r)})
 		case x < 82:
 			k.Ops = append(k.Ops, Op{K: "rp", A: []string{pr()}, F: genFaults(r)})
 		case x < 85:
@@ -1078,6 +1123,12 @@ func corner() []*Case {
 		// one storage failure in the re-read after a successful write (F1: rename, F2: policy)
 		with(Op{K: "up", A: []string{"@0", "n2"}, F: []int{2}}, Op{K: "ra", A: []string{"@0"}}),
 		with(Op{K: "cp", A: []string{"step"}, P: "nostep", F: []int{3}}, Op{K: "la", N: 2}),
+		// details of another provisioner type, or none: refused on create and on update, restart works (F4)
+		with(Op{K: "sp", A: []string{"n2"}, D: "acme"}, Op{K: "up", A: []string{"@0", "n0"}, D: "oidc"}, Op{K: "up", A: []string{"@0", "n3"}, D: "none"},
+			Op{K: "sp", A: []string{"n2"}, D: "none", F: []int{1}}, Op{K: "rs"}, Op{K: "sp", A: []string{"n2"}}),
+		// claims the provisioner's Init refuses: nothing stored, nothing changed
+		with(Op{K: "sp", A: []string{"n2"}, D: "badclaims"}, Op{K: "up", A: []string{"@0", "n3"}, D: "zeromin"}, Op{K: "up", A: []string{"@0", "n3"}, D: "goodclaims"},
+			Op{K: "sp", A: []string{"n0"}, D: "badclaims"}, Op{K: "rs"}),
 		// provisioner policy: refused without rename, accepted when the same update renames (F3)
 		with(Op{K: "up", A: []string{"@0", "n0"}, P: "nostep"}, Op{K: "up", A: []string{"@0", "n2"}, P: "nostep"}),
 	}
